@@ -26,11 +26,17 @@ Start == /\ Cnt /\ inst = "none"
          /\ inst' = "alive" /\ c1' = (IF TestMode THEN "none" ELSE "started") /\ haveCfg' = TRUE
          /\ last' = <<"Start", "-", "ok">> /\ UNCHANGED <<cell, att, cancelled>>
 
-Reattach(c) == /\ c \in RClients /\ Cnt /\ haveCfg /\ att[c] = "no"
+Reattach(c) == /\ c \in RClients /\ Cnt /\ haveCfg /\ att[c] \in {"no", "failed"}
                /\ IF inst = "alive"
                   THEN att' = [att EXCEPT ![c] = "yes"] /\ last' = <<"Reattach", c, "ok">>
-                  ELSE UNCHANGED att /\ last' = <<"Reattach", c, "notfound">>      \* nothing is listening: process-not-found error
+                  ELSE att' = [att EXCEPT ![c] = "failed"] /\ last' = <<"Reattach", c, "notfound">>   \* nothing is listening: process-not-found error
                /\ UNCHANGED <<inst, cell, haveCfg, c1, cancelled>>
+
+\* the client object whose reattach failed is asked again (Start / Client on the same value): a dead
+\* plugin stays not found -- the failed attempt must not leave the client looking started
+Again(c) == /\ c \in RClients /\ Cnt /\ att[c] = "failed" /\ inst # "alive"
+            /\ last' = <<"Again", c, "notfound">>
+            /\ UNCHANGED <<inst, cell, haveCfg, c1, att, cancelled>>
 
 Usable(c) == IF c = "c1" THEN c1 = "started" ELSE att[c] = "yes"
 AllClients == RClients \cup {"c1"}
@@ -64,11 +70,11 @@ Cancel == /\ Cnt /\ TestMode /\ inst = "alive" /\ ~cancelled       \* the test c
           /\ cancelled' = TRUE /\ inst' = "dead" /\ last' = <<"Cancel", "-", "stopped">>
           /\ UNCHANGED <<cell, haveCfg, c1, att>>
 
-RNext == Start \/ Cancel \/ Crash \/ \E c \in AllClients : Kill(c) \/ Get(c) \/ Reattach(c) \/ (\E v \in Values : Set(c, v))
+RNext == Start \/ Cancel \/ Crash \/ \E c \in AllClients : Kill(c) \/ Get(c) \/ Reattach(c) \/ Again(c) \/ (\E v \in Values : Set(c, v))
 RSpec == RInit /\ [][RNext]_rv
 
 TestModeNeverKills == [][(TestMode /\ last'[1] = "Kill") => inst' = inst]_rv
 KillKills == (~TestMode /\ last[1] = "Kill") => inst = "dead"
 StopsOnlyOnCancel == (TestMode /\ inst = "dead") => cancelled
-NotFoundIffDead == (last[1] = "Reattach") => ((last[3] = "notfound") = (inst # "alive"))
+NotFoundIffDead == (last[1] \in {"Reattach", "Again"}) => ((last[3] = "notfound") = (inst # "alive"))
 =============================================================================
